@@ -95,6 +95,7 @@ package maptile
 // only on its two clamp branches (the middle branch goes through sin/log, uninterpreted here).
 //@ func At(ll, z)
 //@   mode bv
+//@   opt inline=Fraction
 //@   function
 //@   ensures z <= 30 && ll[0] >= -180 && ll[0] <= 180 ==> result.X < (1 << z)
 //@   ensures z <= 30 && (ll[1] < -85.0511 || ll[1] > 85.0511) ==> result.Y < (1 << z)
